@@ -259,7 +259,7 @@ func run(prop, tier string, budget float64, evidence, known, replays string, wor
 		return 2
 	}
 	if budget == 0 {
-		budget = 75
+		budget = 100
 		if tier == "thorough" {
 			budget = 900
 		}
